@@ -40,22 +40,22 @@ Cat(ss) == CatI(ss, 1, Cardinality(DOMAIN ss))
 Strip(r) == [f \in DOMAIN r \ {"seg", "k", "pred"} |-> r[f]]
 
 (* ---------------- diagnosis of a wrong id (classification only) ---------------- *)
-MapSrc(idx) == IF IsMap(given[idx]) THEN "own-map" ELSE IF IsMap(gmap) THEN "global-map" ELSE "no-map"
+MapSrc(idx) == IF Given(given[idx]) THEN (IF IsMap(given[idx]) THEN "own-map" ELSE "own-empty-range-map") ELSE IF IsMap(gmap) THEN "global-map" ELSE "no-map"
 \* after a save/restore an id that should go through the global mapping and comes out unchanged is classed as such
 \* (a stray per-mount mapping that leaves the id alone would explain it too)
-LostGlobal(got, x, idx) == after /\ got = x /\ IsMap(gmap) /\ ~IsMap(given[idx])
+LostGlobal(got, x, idx) == after /\ got = x /\ IsMap(gmap) /\ ~Given(given[idx])
 DiagIn(got, x, idx) ==
   IF LostGlobal(got, x, idx) THEN "not-translated" ELSE
-  IF ~IsMap(given[idx]) /\ \E m \in {left[idx]} \cup strays : IsMap(m) /\ In(m, x) # In(AEff(idx), x) /\ got = In(m, x) THEN "stale-slot-mapping"
-  ELSE IF IsMap(given[idx]) /\ got = In(gmap, x) THEN "global-instead-of-mount-mapping"
+  IF ~Given(given[idx]) /\ \E m \in {left[idx]} \cup strays : IsMap(m) /\ In(m, x) # In(AEff(idx), x) /\ got = In(m, x) THEN "stale-slot-mapping"
+  ELSE IF Given(given[idx]) /\ got = In(gmap, x) THEN "global-instead-of-mount-mapping"
   ELSE IF got = x THEN "not-translated"
   ELSE IF got = Out(AEff(idx), x) THEN "wrong-direction" ELSE "wrong-id"
 DiagOut(got, x, idx) ==
   IF LostGlobal(got, x, idx) THEN "not-translated" ELSE
   \* (the root entry of a mount that inherited a stale mapping is translated with it at mount time and at lookup time)
-  IF ~IsMap(given[idx]) /\ \E m \in {left[idx]} \cup strays : IsMap(m) /\ got # Out(AEff(idx), x) /\ got \in {Out(m, x), Out(m, Out(m, x))} THEN "stale-slot-mapping"
+  IF ~Given(given[idx]) /\ \E m \in {left[idx]} \cup strays : IsMap(m) /\ got # Out(AEff(idx), x) /\ got \in {Out(m, x), Out(m, Out(m, x))} THEN "stale-slot-mapping"
   ELSE IF got = Out(AEff(idx), Out(AEff(idx), x)) THEN "translated-twice"
-  ELSE IF IsMap(given[idx]) /\ got = Out(gmap, x) THEN "global-instead-of-mount-mapping"
+  ELSE IF Given(given[idx]) /\ got = Out(gmap, x) THEN "global-instead-of-mount-mapping"
   ELSE IF got = x THEN "not-translated"
   ELSE IF got = In(AEff(idx), x) THEN "wrong-direction" ELSE "wrong-id"
 CkIn(sit, fact, got, x, idx) ==
